@@ -301,7 +301,12 @@ func (o *Store) visitNodes(t *Collection, n *nodeLoc, target []byte,
 		return true, nil
 	}
 	if saveMem {
-		defer nNode.Evict()
+		evictNode := nNode
+		defer func() {
+			if j := evictNode.Evict(); j != nil {
+				o.ItemDecRef(t, j)
+			}
+		}()
 	}
 	nItemLoc := &nNode.item
 	nItem, err := nItemLoc.read(t, false)
